@@ -237,7 +237,11 @@ func addRecord(set entities.Set, els []entities.InfoElementWithValue, id uint16,
 	var err error
 	switch path {
 	case PathV2:
-		return set.AddRecordV2(els, id) // adopts the caller's slice (documented)
+		// adopts the caller's slice (documented) until the set has been sent or reset
+		adoptedMu.Lock()
+		adopted = append(adopted, els)
+		adoptedMu.Unlock()
+		return set.AddRecordV2(els, id)
 	case PathExtra:
 		err = set.AddRecordWithExtraElements(els, 3, id)
 	default:
@@ -249,6 +253,25 @@ func addRecord(set entities.Set, els []entities.InfoElementWithValue, id uint16,
 		els[i] = poison
 	}
 	return err
+}
+
+var (
+	adoptedMu sync.Mutex
+	adopted   [][]entities.InfoElementWithValue
+)
+
+// ReleaseAdopted is called by a check once SendSet has returned for the sets built so far: from
+// then on the application owns the slices it handed to AddRecordV2 again and reuses them - the
+// harness overwrites them.
+func ReleaseAdopted() {
+	adoptedMu.Lock()
+	defer adoptedMu.Unlock()
+	for _, els := range adopted {
+		for i := range els {
+			els[i] = poison
+		}
+	}
+	adopted = nil
 }
 
 var poison = glue.Element(entities.NewInfoElement("poison", 999, entities.Unsigned64, 55555, 8), ref.TU64, ref.Value{U: 0xDEADBEEFDEADBEEF})
